@@ -3,7 +3,7 @@ import sys, os, json, time, subprocess, hashlib, re, glob, fcntl, importlib, shu
 from concurrent.futures import ThreadPoolExecutor
 
 PY = "/venv/bin/python"
-REPO = "/repo"
+REPO = os.environ.get("VERIF_REPO", "/repo")   # override used only by tools/try_patch.sh (scratch copy with a seeded change)
 COQ_TIMEOUT = 1500
 CASES_PER_FILE = 250
 
@@ -340,8 +340,9 @@ def main(root, prop, tier, seed, replay):
             "skipped_boundary": res.get("skipped", 0),
             "known_findings_hit": known_lines,
         })
-    os.makedirs(os.path.join(root, "evidence"), exist_ok=True)
-    with open(os.path.join(root, "evidence", f"{prop}.json"), "w") as f:
+    evdir = os.path.join(root, "evidence") if "VERIF_REPO" not in os.environ else "/tmp/verif_scratch_evidence"
+    os.makedirs(evdir, exist_ok=True)
+    with open(os.path.join(evdir, f"{prop}.json"), "w") as f:
         json.dump(ev, f, indent=1, default=str)
 
     for l in known_lines:
